@@ -6,7 +6,8 @@ CHECK = {
     "engine": "manager-scenario-engine",
     "technique": "stateful property testing (rapid state machine) of the service with a harness-owned schedule of background job completions; invariant evaluated inside the service loop after every step",
     "rule": ('scenario = generated UDP traffic (3-8 flows, up to 26 datagrams with payloads from a small pool, cut into 2-5 capture files so flows continue across captures) plus a rapid state-machine history of: importing the next capture(s), tag add / query edit / delete / colour, mark add / remove, converter attach / detach / reset, opening / using / releasing views, and *delivering the completion of a parked background job* (import, tagging, merge, convert) chosen by the generator - every job parks at a gate right before it posts its completion to the service loop, so the order of completions relative to API calls and to each other is generated; '
-             'no read through a held view ever fails; after settling with all views released the set of *.idx files in the index directory equals the set of files the service serves and the use counts add up to the number of served files. Non-trivial: a view or a parked job held files across a delivered merge that replaced them.'),
+             'no read through a held view ever fails; after settling with all views released the set of *.idx files in the index directory equals the set of files the service serves and the use counts add up to the number of served files. Non-trivial: a view or a parked job held files across a delivered merge that replaced them. '
+             'Merge fault campaign (TestVerifC13MergeFault): 2-4 generated index files with overlapping stream ids are opened, one of them is truncated on disk at a generated offset, index.Merge is called on the run the way the merge job does; when it reports failure the directory must hold exactly the inputs (the service keeps serving them), when it succeeds exactly the returned files are new. Non-trivial: the merge failed.'),
     "level_text": 'invariant checked after every step of generated histories with generated completion orders; finds lost invalidations / reference-count and snapshot errors that need a specific interleaving; no absence claim',
     "level_note": 'reads = AllStreams, Stream, Data, Packets, three searches; a job that fails because a file vanished is only noticed through its log, not asserted here',
     "assumptions": [],
@@ -14,5 +15,6 @@ CHECK = {
     "campaigns": [
         {"test": "TestVerifC13", "checks": {"quick": 800, "thorough": 40000}, "steps": 40, "shrinktime": "90s", "death_is_violation": True,
          "timeout": {"quick": 600, "thorough": 5400}},
+        {"test": "TestVerifC13MergeFault", "checks": {"quick": 1600, "thorough": 60000}, "shrinktime": "20s"},
     ],
 }
